@@ -48,10 +48,16 @@ FindEnv(st, e, name) ==
 \* <<found, value>>
 GetVar(st, name) ==
   LET cur == st.envs[st.cur] IN
-  IF name = "self" THEN (IF cur.fn.t = "func" THEN <<TRUE, cur.fn>> ELSE <<FALSE, Nil>>)
-  ELSE IF cur.fn.t = "func" /\ cur.fn.name # "" /\ cur.fn.name = name THEN <<TRUE, cur.fn>>
+  IF name = "self" /\ name \notin DOMAIN cur.vars      \* (a parameter named self is what the body reads)
+  THEN (IF cur.fn.t = "func" THEN <<TRUE, cur.fn>> ELSE <<FALSE, Nil>>)
+  ELSE IF name # "self" /\ cur.fn.t = "func" /\ cur.fn.name # "" /\ cur.fn.name = name THEN <<TRUE, cur.fn>>
   ELSE LET e == FindEnv(st, st.cur, name) IN
        IF e = 0 THEN <<FALSE, Nil>> ELSE <<TRUE, st.envs[e].vars[name]>>
+
+\* what an assignment to name replaces: the binding, without self and the function's own name
+GetBinding(st, name) ==
+  LET e == FindEnv(st, st.cur, name) IN
+  IF e = 0 THEN <<FALSE, Nil>> ELSE <<TRUE, st.envs[e].vars[name]>>
 
 PutIn(st, e, name, val) ==
   LET env == st.envs[e]
@@ -60,10 +66,11 @@ PutIn(st, e, name, val) ==
 
 (* `=` (create = FALSE): update the binding found walking outwards, else create locally;
    `:=` and parameters (create = TRUE): always local.  All-caps names are constants:
-   rebinding an existing one to a non-equal value is an error.                           *)
+   rebinding an existing one to a value that is not identical (same types all the way down,
+   same float bits, same closure) is an error.                                           *)
 SetVar(st, name, val, create) ==
-  LET g == GetVar(st, name) IN
-  IF IsConstName(name) /\ g[1] /\ ~Eq(g[2], val)
+  LET g == GetBinding(st, name) IN
+  IF IsConstName(name) /\ g[1] /\ g[2] # val
   THEN R(Err("attempt to change constant"), st)
   ELSE IF name \in ExtNameSet THEN R(Err("attempt to change internal function"), st)
   ELSE IF create THEN R(val, PutIn(st, st.cur, name, val))
